@@ -1,5 +1,6 @@
 """C10 — tree view, text view, to_dict, to_json and pretty() describe the same changes."""
 import json, copy
+import datetime as _dt
 from .. import core, diffing as DF, hashing as HS
 from ..gen import Gen, strict_eq
 from ..wire import OutOfUniverse
@@ -51,6 +52,8 @@ def walk_checks(ctx, case, t1, t2, tree):
                             if not ok_member:
                                 ctx.violate(case, '%s %s: %s child has no relationship and is not an item of the parent' % (cat, leaf.path(), side))
                             continue
+                        if isinstance(child, _dt.datetime) and rel.parent is parent and rel.child is not child:
+                            ctx.count('F42_region:datetime node replaced by its normalised copy'); continue       # finding F42 (_diff_datetime overwrites level.t1 / level.t2)
                         if rel.parent is not parent or rel.child is not child:
                             ctx.violate(case, '%s %s: %s relationship does not link parent and child objects' % (cat, leaf.path(), side)); continue
                         # the child really is parent[param] (dicts, lists, tuples); set members by membership
